@@ -597,7 +597,49 @@ def analyse_core(repo: Path):
     core["seedAnnotation"] = seed_ann
     core["solveShape"] = solve_shape
     core["initialSolutionShape"] = initial_shape
+    core["pins"] = source_pins(repo)
     return core, helper_rng
+
+
+# functions whose model is hand-written (not translated by py2lean) and tied by the correspondence suites: the fingerprint of their
+# source text (docstrings and comments removed) is part of the generated facts, so that the model is known to have been validated against
+# exactly the text that is there now; a change of any of them breaks the pin obligation (Props/T14 T19 T20) and sends the check searching
+PINNED = {
+    "models.py": ["LabelEncoder", "EarlyStopping", "BaseOptimizationConfig", "Agent", "ContinuousMultiVariable", "DiscreteMultiVariable", "PermutationVariable",
+                  "MultiObjectiveVariable", "BinaryVariable", "Task.__init__", "Task.validate_objective_weights", "Task.get_variables", "Task.get_bounds",
+                  "Task.correct_solution", "Task.empty_solution", "Task.transform_solution"],
+    "hypertuner.py": ["ParameterGrid", "HyperTuner"],
+    "multitask.py": ["Multitask.__init__", "Multitask.__check_modes__", "Multitask.export_results", "Multitask.__run__", "Multitask.execute",
+                     "Multitask.__parallelize__", "Multitask.__get_mode__"],
+    "enums.py": ["ModeSolver", "TaskType", "ExportType"],
+    "helpers.py": ["calculate_fitness", "average_fitness", "get_pool_executor"],
+    "abstract.py": ["OptimizationAbstract.__init__", "OptimizationAbstract._generate_agents", "OptimizationAbstract._init_population"],
+}
+
+
+def _strip_doc(node):
+    for n in ast.walk(node):
+        if isinstance(n, (ast.FunctionDef, ast.ClassDef, ast.AsyncFunctionDef)) and n.body and isinstance(n.body[0], ast.Expr) \
+                and isinstance(n.body[0].value, ast.Constant) and isinstance(n.body[0].value.value, str):
+            n.body = n.body[1:] or [ast.Pass()]
+    return node
+
+
+def source_pins(repo: Path):
+    import hashlib
+    out = []
+    for f, quals in PINNED.items():
+        tree = parse(repo / "pyvolutionary" / f)
+        for q in quals:
+            body, node = tree.body, None
+            for part in q.split("."):
+                node = next((n for n in body if isinstance(n, (ast.FunctionDef, ast.ClassDef)) and n.name == part), None)
+                if node is None:
+                    break
+                body = node.body
+            fp = "missing" if node is None else hashlib.sha256(ast.unparse(_strip_doc(node)).encode()).hexdigest()[:16]
+            out.append((f"{f}:{q}", fp))
+    return out
 
 
 def lean_str(s: str) -> str:
@@ -687,6 +729,8 @@ structure CoreFacts where
   poolExecutorShape : Bool                  -- `get_pool_executor` = ThreadPoolExecutor / ProcessPoolExecutor with n_workers
 deriving Repr
 """)
+    C.append("/-- fingerprints (sha256 of the docstring-free, comment-free normalised source `ast.unparse`) of the functions and classes whose model is hand-written -/")
+    C.append("def pins : List (String × String) := [\n" + ",\n".join("  (%s, %s)" % (lean_str(k), lean_str(v)) for k, v in core["pins"]) + "]\n")
     ps = {"return": "ret"}
     C.append("def core : CoreFacts :=")
     C.append("  { objectiveFunctionCallers := %s," % lean_list(lean_str(x) for x in core["objectiveCallers"]["objective_function"]))
